@@ -305,7 +305,7 @@ def run_exe(work, exe, cases, cfg, seed, case_timeout):
         except OSError:
             pass
         cmd = [exe, evpath, str(seed), '--from', str(start)]
-        budget = max(30, case_timeout * (len(keys) - start))
+        budget = max(60, 20 + case_timeout * (len(keys) - start) // 4)
         hung = False
         try:
             p = subprocess.run(cmd, stdout=subprocess.PIPE, stderr=subprocess.PIPE, timeout=budget, env=cfg.env(), text=True, errors='replace')
@@ -325,7 +325,27 @@ def run_exe(work, exe, cases, cfg, seed, case_timeout):
             k = last_begin['k']
             idx = last_begin.get('idx', start)
             if hung:
-                out.append({'k': k, 'st': 'hang', 'n': 0, 'nb': 0, 'mode': 'hang', 'fb': 'driver exceeded %ds watchdog' % budget})
+                # re-run the offending case alone once with a generous budget before calling it a hang
+                ev2p = exe + '.events2'
+                try:
+                    os.unlink(ev2p)
+                except OSError:
+                    pass
+                confirmed = True
+                try:
+                    subprocess.run([exe, ev2p, str(seed), '--only', k], stdout=subprocess.PIPE, stderr=subprocess.PIPE, timeout=max(120, 4 * case_timeout), env=cfg.env())
+                    ev2 = [e for e in parse_events(ev2p) if e.get('st') != 'begin' and e.get('k') == k]
+                    if ev2:
+                        out.extend(ev2)
+                        confirmed = False
+                except subprocess.TimeoutExpired:
+                    pass
+                try:
+                    os.unlink(ev2p)
+                except OSError:
+                    pass
+                if confirmed:
+                    out.append({'k': k, 'st': 'crash', 'n': 0, 'nb': 1, 'mode': 'hang', 'fb': 'case did not terminate: %ds watchdog for the driver, then %ds alone' % (budget, max(120, 4 * case_timeout))})
             else:
                 kind, frames = summarize_san(err)
                 if kind:
